@@ -141,6 +141,105 @@ theorem join_contains (a b : Box3) (r : RayQ) (t : Rat) :
     (a.contains r t → (a.join b).contains r t) ∧ (b.contains r t → (a.join b).contains r t) :=
   ⟨contains_join_left a b r t, contains_join_right a b r t⟩
 
+/-! ## the bounding box of a polygon contains all its corners -/
+
+def _root_.Cte.Box3.hasPoint (b : Box3) (p : V3) : Prop :=
+  b.lo.x ≤ p.x ∧ p.x ≤ b.hi.x ∧ b.lo.y ≤ p.y ∧ p.y ≤ b.hi.y ∧ b.lo.z ≤ p.z ∧ p.z ≤ b.hi.z
+
+theorem hasPoint_join_left (a b : Box3) (p : V3) (h : a.hasPoint p) : (a.join b).hasPoint p := by
+  obtain ⟨h1, h2, h3, h4, h5, h6⟩ := h
+  refine ⟨le_trans (rmin_le_left _ _) h1, le_trans h2 (le_rmax_left _ _), le_trans (rmin_le_left _ _) h3,
+    le_trans h4 (le_rmax_left _ _), le_trans (rmin_le_left _ _) h5, le_trans h6 (le_rmax_left _ _)⟩
+
+theorem hasPoint_join_right (a b : Box3) (p : V3) (h : b.hasPoint p) : (a.join b).hasPoint p := by
+  obtain ⟨h1, h2, h3, h4, h5, h6⟩ := h
+  refine ⟨le_trans (rmin_le_right _ _) h1, le_trans h2 (le_rmax_right _ _), le_trans (rmin_le_right _ _) h3,
+    le_trans h4 (le_rmax_right _ _), le_trans (rmin_le_right _ _) h5, le_trans h6 (le_rmax_right _ _)⟩
+
+theorem ofPoint_hasPoint (p : V3) : (Box3.ofPoint p).hasPoint p :=
+  ⟨le_refl _, le_refl _, le_refl _, le_refl _, le_refl _, le_refl _⟩
+
+/-- the running box keeps every point it already had and takes in the points still to come -/
+theorem foldl_box_hasPoint (pts : List V3) (acc : Option Box3) (p : V3)
+    (h : (∃ a, acc = some a ∧ a.hasPoint p) ∨ p ∈ pts) :
+    ∃ b, pts.foldl (fun acc q => joinOpt acc (some (Box3.ofPoint q))) acc = some b ∧ b.hasPoint p := by
+  induction pts generalizing acc with
+  | nil =>
+    rcases h with ⟨a, ha, hp⟩ | h
+    · exact ⟨a, by simpa using ha, hp⟩
+    · cases h
+  | cons q t ih =>
+    simp only [List.foldl_cons]
+    apply ih
+    rcases h with ⟨a, ha, hp⟩ | h
+    · left; subst ha
+      exact ⟨a.join (Box3.ofPoint q), rfl, hasPoint_join_left _ _ _ hp⟩
+    · rcases List.mem_cons.mp h with rfl | h
+      · left
+        cases acc with
+        | none => exact ⟨Box3.ofPoint p, rfl, ofPoint_hasPoint p⟩
+        | some a => exact ⟨a.join (Box3.ofPoint p), rfl, hasPoint_join_right _ _ _ (ofPoint_hasPoint p)⟩
+      · right; exact h
+
+/-- `aabb_contains_corners`: for any list of corners — any polygon, position, tilt and azimuth — the box
+`WallGeom::aabb` computes exists as soon as there is a corner and contains every corner -/
+theorem aabb_contains_corners (pts : List V3) (p : V3) (hp : p ∈ pts) :
+    ∃ b, aabbOfPoints pts = some b ∧ b.hasPoint p :=
+  foldl_box_hasPoint pts none p (Or.inr hp)
+
+/-- and it is no larger than needed: each of its six faces passes through a corner -/
+theorem aabb_faces_touch (pts : List V3) (b : Box3) (h : aabbOfPoints pts = some b) :
+    (∃ p ∈ pts, p.x = b.lo.x) ∧ (∃ p ∈ pts, p.x = b.hi.x) ∧ (∃ p ∈ pts, p.y = b.lo.y) ∧
+    (∃ p ∈ pts, p.y = b.hi.y) ∧ (∃ p ∈ pts, p.z = b.lo.z) ∧ (∃ p ∈ pts, p.z = b.hi.z) := by
+  unfold aabbOfPoints at h
+  suffices H : ∀ (pts seen : List V3) (acc : Option Box3),
+      (∀ a, acc = some a → (∃ p ∈ seen, p.x = a.lo.x) ∧ (∃ p ∈ seen, p.x = a.hi.x) ∧ (∃ p ∈ seen, p.y = a.lo.y) ∧
+        (∃ p ∈ seen, p.y = a.hi.y) ∧ (∃ p ∈ seen, p.z = a.lo.z) ∧ (∃ p ∈ seen, p.z = a.hi.z)) →
+      ∀ b, pts.foldl (fun acc q => joinOpt acc (some (Box3.ofPoint q))) acc = some b →
+        (∃ p ∈ seen ++ pts, p.x = b.lo.x) ∧ (∃ p ∈ seen ++ pts, p.x = b.hi.x) ∧ (∃ p ∈ seen ++ pts, p.y = b.lo.y) ∧
+        (∃ p ∈ seen ++ pts, p.y = b.hi.y) ∧ (∃ p ∈ seen ++ pts, p.z = b.lo.z) ∧ (∃ p ∈ seen ++ pts, p.z = b.hi.z) by
+    simpa using H pts [] none (by intro a ha; cases ha) b h
+  intro pts
+  induction pts with
+  | nil =>
+    intro seen acc hacc b hb
+    simp only [List.foldl_nil] at hb
+    simpa using hacc b hb
+  | cons q t ih =>
+    intro seen acc hacc b hb
+    simp only [List.foldl_cons] at hb
+    have := ih (seen ++ [q]) (joinOpt acc (some (Box3.ofPoint q))) (by
+      intro a ha
+      cases acc with
+      | none =>
+        simp only [joinOpt, Option.some.injEq] at ha; subst ha
+        simp [Box3.ofPoint]
+      | some a0 =>
+        simp only [joinOpt, Option.some.injEq] at ha; subst ha
+        obtain ⟨h1, h2, h3, h4, h5, h6⟩ := hacc a0 rfl
+        have mn : ∀ (u v : Rat), rmin u v = u ∨ rmin u v = v := by intro u v; unfold rmin; split <;> simp
+        have mx : ∀ (u v : Rat), rmax u v = u ∨ rmax u v = v := by intro u v; unfold rmax; split <;> simp
+        have lift : ∀ (f : V3 → Rat) (c : Rat), (∃ p ∈ seen, f p = c) → ∃ p ∈ seen ++ [q], f p = c := by
+          intro f c ⟨p, hp, e⟩; exact ⟨p, by simp [hp], e⟩
+        have last : ∀ (f : V3 → Rat), ∃ p ∈ seen ++ [q], f p = f q := fun f => ⟨q, by simp, rfl⟩
+        simp only [Box3.join, Box3.ofPoint]
+        refine ⟨?_, ?_, ?_, ?_, ?_, ?_⟩
+        · rcases mn a0.lo.x q.x with e | e <;> rw [e]
+          exacts [lift (·.x) _ h1, last (·.x)]
+        · rcases mx a0.hi.x q.x with e | e <;> rw [e]
+          exacts [lift (·.x) _ h2, last (·.x)]
+        · rcases mn a0.lo.y q.y with e | e <;> rw [e]
+          exacts [lift (·.y) _ h3, last (·.y)]
+        · rcases mx a0.hi.y q.y with e | e <;> rw [e]
+          exacts [lift (·.y) _ h4, last (·.y)]
+        · rcases mn a0.lo.z q.z with e | e <;> rw [e]
+          exacts [lift (·.z) _ h5, last (·.z)]
+        · rcases mx a0.hi.z q.z with e | e <;> rw [e]
+          exacts [lift (·.z) _ h6, last (·.z)]) b hb
+    simpa [List.append_assoc] using this
+
+example : aabbOfPoints [⟨1, 5, 0⟩, ⟨-2, 7, 3⟩, ⟨0, 6, -1⟩] = some { lo := ⟨-2, 5, -1⟩, hi := ⟨1, 7, 3⟩ } := by decide +kernel
+
 /-! ## non-vacuity: 40 identical boxes (coinciding centres) and a ray through them -/
 def unitBox : Box3 := { lo := ⟨0, 0, 0⟩, hi := ⟨1, 1, 1⟩ }
 def rayThrough : RayQ := { o := ⟨-1, 1 / 2, 1 / 2⟩, d := ⟨1, 0, 0⟩ }
